@@ -213,6 +213,8 @@ fn main() {
             }
             let path = PathBuf::from(&a[3]);
             let id = a[2].as_str();
+            // a C03 case may kill the process: replay it in an isolated child
+            std::env::set_var("PV_ISOLATE_ALL", "1");
             let rc = dispatch!(id, do_replay, &path);
             std::process::exit(rc);
         }
